@@ -394,7 +394,7 @@ void uv_wtf8_to_utf16(const char* source_ptr,
     /* uv_wtf8_length_as_utf16 should have been called and checked first. */
     assert(code_point >= 0);
     if (code_point > 0xFFFF) {
-      assert(code_point < 0x10FFFF);
+      assert(code_point <= 0x10FFFF);
       *w_target++ = (((code_point - 0x10000) >> 10) + 0xD800);
       *w_target++ = ((code_point - 0x10000) & 0x3FF) + 0xDC00;
       w_target_len -= 2;
